@@ -543,6 +543,37 @@ def r11(ctx, rep):
                 if len(inits) == 1 and show(inits[0]["init"]).replace(" ", "") == f"{pre[0]}.len()" and len(writes) == 1 and len(top_dec) == 1 \
                         and not any(x.get("k") == "continue" for x in walk(w["body"])):
                     ok_bound, loops, bounds = True, wl, [f"{ctr} = {pre[0]}.len(); while {t}"]
+    # innermost first: the first attempt is the name qualified with the whole current module path, the plain name comes last (a plain lookup
+    # is not pure: under a wildcard frame an unknown name is inferred as a column, so trying it first captures the module's own declarations)
+    import alpha
+    Af = alpha.Inliner(f)
+    branch = None
+    for n in walk(f["body"]):
+        if n.get("k") == "mcall" and n["m"] == "prepend":
+            branch = n
+    attempts = []
+    if branch is not None:
+        import guards as _g
+        par_ = _g.parents(f["body"])
+        cur = branch
+        while id(cur) in par_ and not (par_[id(cur)].get("k") == "if"):
+            cur = par_[id(cur)]
+        scope = cur
+        attempts = [n for n in walk(scope) if (n.get("k") == "mcall" and n["m"] == "resolve_ident_core") or (n.get("k") == "call" and last_seg(show(n["f"])) == "resolve_ident_core")]
+        attempts.sort(key=lambda n: (n["l"], n.get("c", 0)))
+    first = Af.show(attempts[0]["a"][0], strip=True).replace(" ", "") if attempts and attempts[0]["a"] else ""
+    if attempts and re.fullmatch(r"\w+", first):
+        # a mutable local (it is shortened by the retries): its initialiser, when nothing assigns to it before the first attempt
+        defs = [st for st in walk(f["body"]) if st.get("k") == "local" and st["pat"].get("k") == "p_ident" and st["pat"]["n"] == first and st.get("init") is not None and st["l"] <= attempts[0]["l"]]
+        if defs:
+            d = max(defs, key=lambda st: st["l"])
+            assigned = any(x.get("k") == "assign" and show(x["lhs"]) == first and d["l"] < x["l"] < attempts[0]["l"] for x in walk(f["body"]))
+            if not assigned:
+                first = Af.show(d["init"], strip=True).replace(" ", "")
+    rep.check(bool(attempts) and ".prepend(" in first and not any(x.get("k") in ("while", "for", "loop") and _g._contains(x, attempts[0]) for x in walk(f["body"])), "most-qualified-first",
+              f"the first lookup of resolve_ident (no default namespace) must be the name prefixed with the whole current module path (found `{first[:80]}`), before any retry loop: "
+              "looked up bare first, a name that a module declares itself is inferred as a column of a wildcard frame or captured by a same-named top-level declaration",
+              file=f["file"], line=attempts[0]["l"] if attempts else f["l"], fn=f["path"])
     rep.check(ok_bound, "strip-only-prepended",
               f"resolve_ident prepends `{pre}` and strips one leading segment per retry in a loop over `{bounds}`: the bound must be the length of what was prepended. With the length of the whole "
               "path the user's own qualifier is stripped too: `select {t.b}` after `select {a} | join u (==a)` resolves to `u.b`", file=f["file"], line=f["l"], fn=f["path"])
